@@ -43,6 +43,9 @@ var $ifaceKeyFor = x => {
         return 'nil';
     }
     var c = x.constructor;
+    if (!c.comparable) {
+        $throwRuntimeError("hash of unhashable type " + c.string);
+    }
     return c.string + '$' + c.keyFor(x.$val);
 };
 
